@@ -114,7 +114,8 @@ var registry = map[string]func([]Val) Val{}
 // "[a b]" and "[ a b ]" are the same request
 var bracketSpacer = strings.NewReplacer("[", " [ ", "]", " ] ")
 
-func register(name string, f func([]Val) Val) { registry[name] = f }
+// every op runs under stableWrap (stable.go): values recorded with keep*() must still be what was handed out
+func register(name string, f func([]Val) Val) { registry[name] = stableWrap(f) }
 
 var lastPanic string
 
